@@ -27,6 +27,8 @@ Step(e) ==
   LET c == e.c IN
   \/ /\ e.a = "New" /\ New(c, e.n)
   \/ /\ e.a = "Enter" /\ Enter(c)
+  \/ /\ e.a = "Prebuild" /\ Prebuild(c, e.n)
+  \/ /\ e.a = "EnterPre" /\ EnterPre(c)
   \/ /\ e.a = "Exit" /\ Exit(c, e.s)
   \/ /\ e.a = "CreateInv" /\ CreateInv(c)
   \/ /\ e.a = "ApplyInv" /\ ApplyInv(c, e.n)
@@ -43,6 +45,9 @@ EventClauses(e) ==
   \cup (IF e.a = "ApplyInv" /\ e.fired # invs[e.n].cap.cb THEN Flag("callback_used") ELSE {})
   \cup (IF e.a = "ApplyInv" /\ e.fired # 0 /\ e.solver # invs[e.n].cap.solver
            THEN Flag("solver_used") ELSE {})
+  \* reduce() of an expression containing the inverse, called under whatever is active now, keeps the capture
+  \cup (IF e.a = "ApplyInv" /\ e.cap_red # invs[e.n].cap THEN Flag("captured_after_reduce") ELSE {})
+  \cup (IF e.a = "ApplyInv" /\ e.fired_red # invs[e.n].cap.cb THEN Flag("callback_used_after_reduce") ELSE {})
   \* a solve that cannot converge raises exactly when the CAPTURED configuration says solver_throw
   \cup (IF e.a = "ApplyInv" /\ e.raised # invs[e.n].cap.throw THEN Flag("throw_used") ELSE {})
 
